@@ -10,19 +10,19 @@ from .. import core, wire
 
 os.environ.setdefault("VERIF_HANG_DETAIL", "1")      # HANG tokens then name the goroutines (state @ function)
 PROP = "C15"
-MODULE = "GmqttVerif.Properties.C15"
-LOCK_MODULE = "GmqttVerif.Properties.C15LockOrder"
+MODULE = "GmqttVerif.Properties.C15LockOrder"       # imports GmqttVerif.Properties.C15; builds only if the lock order is acyclic
+BASE_MODULE = "GmqttVerif.Properties.C15"
 L = "GmqttVerif.Lifecycle."
 THEOREMS = [L + t for t in (
     "lifecycle_no_stuck_state", "lifecycle_terminates", "rank_decreases_always", "closing_closes_socket",
     "closed_after_unregister", "closed_after_goroutines_exit", "channels_closed_once", "channels_closed_by_owner",
     "stop_terminates", "workers_only_when_registered", "lock_order_acyclic_modulo_feedback",
     "f37_as_is_stuck", "no_stuck_statement_fails_as_is", "f38_failed_connect_as_is_stuck", "f38_stop_as_is_leaves_connection",
-    "f37_stop_as_is_stuck", "f47_once_deadlock_as_is_stuck", "f48_auth_send_as_is_stuck", "f49_as_is_poll_without_queue")]
-LOCK_THEOREMS = [L + "lock_feedback_empty", L + "lock_order_acyclic"]
+    "f37_stop_as_is_stuck", "f47_once_deadlock_as_is_stuck", "f48_auth_send_as_is_stuck", "f49_as_is_poll_without_queue",
+    "lock_feedback_empty", "lock_order_acyclic")]
 COMPS = ["broker"]          # Go side; the Lean side is oracle_lifecycle (LifecycleStream.model)
 NEEDS_FACTS = True
-QT = 2000
+QT = 20000       # only a wedged broker (or a hopelessly overloaded machine) ever waits this long
 
 # ---------------------------------------------------------------- generator
 
@@ -374,12 +374,6 @@ def streams(tier):
                                     timeout=1800), 3000))
     return res
 
-def _tag(tag):
-    return lambda info: tag in (info.get("why") or "")
-
-RECOGNISERS = {"c15_f37": _tag("[F37"), "c15_f38": _tag("[F38]"), "c15_f47": _tag("F47]"), "c15_f48": _tag("[F48]"),
-               "c15_lock_cycle": lambda info: info.get("kind") == "lockorder"}
-
 def _lock_cycle_report():
     """the edges the extractor marked as closing a cycle, with their sites (from Generated/Facts.lean)"""
     p = os.path.join(core.LEAN, "GmqttVerif", "Generated", "Facts.lean")
@@ -397,7 +391,6 @@ def _lock_cycle_report():
 
 def run(r):
     mod = __import__(__name__, fromlist=["x"])
-    r.recognisers.update(RECOGNISERS)
     # facts (lock order) are re-extracted from the tree on every run
     rc, out = core.build_go(r.log, ["extract"])
     if rc == 0:
@@ -405,25 +398,14 @@ def run(r):
     if rc != 0:
         r.violation("extract", "# fact extractor failed on the tree: the regenerated tie no longer checks\n" + out[-3000:], False,
                     "extractor failed")
-    r.prove(MODULE, THEOREMS, comps=["lifecycle"])
-    # the full lock-order statement builds only for a tree without a lock-order cycle
-    rc, out = core.build_lean([LOCK_MODULE], r.log)
-    if rc != 0:
+    if not r.prove(MODULE, THEOREMS, comps=["lifecycle"]) and r.proof.get("build_failed"):
+        # which half failed? the lifecycle theorems do not depend on the tree; lock_order_acyclic does
+        rc, _ = core.build_lean([BASE_MODULE], r.log)
         cyc = _lock_cycle_report()
-        why = "lock order: the mutexes are acquired in a cycle:\n" + cyc
-        if not r.known_finding(dict(stream="lockorder", ops=[], impl=None, model=None, why=why, kind="lockorder")):
-            errs = [l for l in out.split("\n") if "error" in l.lower()][:10]
-            r.violation("lockorder", "# lock_order_acyclic does not hold for this tree: the extracted acquired-while-holding relation "
-                        "has a cycle.\n# edges that close a cycle (Generated/Facts.lean lockFeedback):\n" +
-                        "\n".join("#   " + l for l in cyc.split("\n")) + "\n\n" + "\n".join(errs) + "\n", False, "lock-order cycle")
-    else:
-        ok, n, axioms, problems, aout = core.audit(LOCK_MODULE, LOCK_THEOREMS, r.log)
-        if ok:
-            r.proof["theorems"] = THEOREMS + LOCK_THEOREMS
-            r.proof["obligations"] = max(r.proof["obligations"], n)
-            r.proof["discharged"] = r.proof["obligations"] if r.proof["discharged"] else 0
-        else:
-            r.violation("proof-audit-lockorder", "# axiom audit failed\n" + "\n".join(problems) + "\n" + aout[-3000:], False, "audit failed")
+        if rc == 0 and cyc:
+            r.violation("lockorder", "# lock_order_acyclic does not hold for this tree: the extracted acquired-while-holding relation has a "
+                        "cycle.\n# edges that close a cycle (Generated/Facts.lean lockFeedback), with one site each:\n" +
+                        "\n".join("#   " + l for l in cyc.split("\n")) + "\n", False, "lock-order cycle")
     comps = ["broker"]
     rc, out = core.build_go(r.log, comps)
     if rc != 0:
@@ -452,9 +434,8 @@ def run(r):
             stacks = [g for g in p.stderr.split("\n\n") if "RWMutex" in g or "sync.Mutex.Lock" in g or "sync.(*Mutex).Lock" in g][:6]
             why = ("lock order: the broker deadlocked under PUBLISH (delivery mode overlap) + SUBSCRIBE + new connections: " +
                    p.stdout.strip())
-            if not r.known_finding(dict(stream="lockorder", ops=[], impl=None, model=None, why=why, kind="lockorder")):
-                r.violation("lockorder-probe", "# " + why + "\n# run: harness/bin/probe_lockorder -seconds 10\n# goroutines waiting for "
-                            "a mutex:\n" + "\n\n".join(stacks)[:6000] + "\n", True, "deadlock in probe_lockorder")
+            r.violation("lockorder-probe", "# " + why + "\n# run: harness/bin/probe_lockorder -seconds 10\n# goroutines waiting for "
+                        "a mutex:\n" + "\n\n".join(stacks)[:6000] + "\n", True, "deadlock in probe_lockorder")
     for s, n in streams(r.tier):
         if s.name == "lifecycle-race" and not os.path.exists(core.drive_exe("broker_race")):
             continue
